@@ -3,6 +3,7 @@ package main
 import (
 	"fmt"
 	"strconv"
+	"strings"
 )
 
 func ival(vals map[string]string, k string) (int64, bool) {
@@ -43,5 +44,85 @@ func TestGovcReplay(t *testing.T) {
 }
 `, sm.Name, p, c, s, h, p, c, s, h, h, h, h)
 		return "ansi", "TestGovcReplay", src, true
+	}
+}
+
+// fpBits parses an SMT-LIB Float64 value into its IEEE-754 bit pattern.
+func fpBits(v string) (uint64, bool) {
+	v = strings.TrimSpace(v)
+	switch {
+	case strings.HasPrefix(v, "(_ +oo"):
+		return 0x7FF0000000000000, true
+	case strings.HasPrefix(v, "(_ -oo"):
+		return 0xFFF0000000000000, true
+	case strings.HasPrefix(v, "(_ NaN"):
+		return 0x7FF8000000000001, true
+	case strings.HasPrefix(v, "(_ +zero"):
+		return 0, true
+	case strings.HasPrefix(v, "(_ -zero"):
+		return 0x8000000000000000, true
+	}
+	if !strings.HasPrefix(v, "(fp ") {
+		return 0, false
+	}
+	fs := strings.Fields(strings.TrimSuffix(strings.TrimPrefix(v, "(fp "), ")"))
+	if len(fs) != 3 {
+		return 0, false
+	}
+	var bits string
+	for _, f := range fs {
+		switch {
+		case strings.HasPrefix(f, "#b"):
+			bits += f[2:]
+		case strings.HasPrefix(f, "#x"):
+			for _, c := range f[2:] {
+				n, err := strconv.ParseUint(string(c), 16, 8)
+				if err != nil {
+					return 0, false
+				}
+				bits += fmt.Sprintf("%04b", n)
+			}
+		default:
+			return 0, false
+		}
+	}
+	if len(bits) != 64 {
+		return 0, false
+	}
+	u, err := strconv.ParseUint(bits, 2, 64)
+	return u, err == nil
+}
+
+func init() {
+	replayBuilders["object.Object.GetNumber"] = func(vals map[string]string, sm *oblSummary) (string, string, string, bool) {
+		if vals["ev!present"] != "true" || vals["ev!isnum"] != "true" {
+			return "", "", "", false
+		}
+		bits, ok := fpBits(vals["ev!num"])
+		if !ok {
+			return "", "", "", false
+		}
+		src := fmt.Sprintf(`package object
+
+import (
+	"math"
+	"testing"
+)
+
+// counterexample found by the solver for %s: the JSON number with IEEE-754 bits %#x
+func TestGovcReplay(t *testing.T) {
+	f := math.Float64frombits(%#x)
+	got, err := Object{"k": f}.GetNumber("k")
+	faithful := f == math.Trunc(f) && f >= 0 && f < 18446744073709551616.0
+	if faithful {
+		if err != nil || float64(got) != f {
+			t.Fatalf("GetNumber(%%v) = %%d, %%v; want the number itself", f, got, err)
+		}
+	} else if err == nil {
+		t.Fatalf("GetNumber(%%v) = %%d, nil; a value that is not a non-negative integer below 2^64 must be rejected", f, got)
+	}
+}
+`, sm.Name, bits, bits)
+		return "object", "TestGovcReplay", src, true
 	}
 }
